@@ -78,3 +78,43 @@ package federation
 //@ ensures [C17] !old(has(sess.seenEvents.items, in.Id)) && in.Event.(type *Event_Message) && M != nil && M.Message != nil && M.Message.Retained && len(M.Message.Payload) > 0 ==> R.$ops == old(R.$ops) + 1 && R.$msg[M.Message.TopicName] == P.$lastPub
 //@ ensures [C17] !old(has(sess.seenEvents.items, in.Id)) && in.Event.(type *Event_Message) && M != nil && M.Message != nil && M.Message.Retained && len(M.Message.Payload) == 0 ==> R.$ops == old(R.$ops) + 1 && R.$msg[M.Message.TopicName] == nil
 //@ ensures [C17] !old(has(sess.seenEvents.items, in.Id)) && in.Event.(type *Event_Message) && M != nil && M.Message != nil && !M.Message.Retained ==> R.$ops == old(R.$ops)
+
+// ---------------------------------------------------------------------------
+// C17 — a node that failed or left: it stops being a peer, and with it go its subscriptions in the federation
+// subscription tree and its session — otherwise the sender keeps counting it as a member of share groups and keeps
+// choosing it, and the message reaches nobody.
+// $gone[n]: UnsubscribeAll(n) was called on the tree; $sdel[n]: the session manager was told to drop n's session.
+//@ ghost field (mem.TrieDB).gone string -> bool
+//@ ghost field (sessionMgr).sdel string -> bool
+//@ func (*mem.TrieDB).UnsubscribeAll trusted
+//@ params db, clientID
+//@ requires db != nil
+//@ modifies ghost(db.$gone)
+//@ ensures forall k string :: db.$gone[k] == (old(db.$gone[k]) || k == clientID)
+//@ func (*sessionMgr).del trusted
+//@ requires s != nil
+//@ modifies ghost(s.$sdel)
+//@ ensures forall k string :: s.$sdel[k] == (old(s.$sdel[k]) || k == nodeName)
+// peer.stop closes the stream to that node; it changes nothing but the state of that peer.
+//@ func (*peer).stop trusted
+//@ requires p != nil
+//@ modifies p.state
+
+//@ func (*Federation).nodeFail
+//@ props C17
+//@ let T = f.fedSubStore.TrieDB
+//@ let S = f.sessionMgr
+//@ requires [C17] f != nil && f.peers != nil && f.fedSubStore != nil && f.fedSubStore.TrieDB != nil && f.sessionMgr != nil && (forall n string :: has(f.peers, n) ==> f.peers[n] != nil)
+//@ modifies map(f.peers), all(peer.state), ghost(T.$gone), ghost(S.$sdel)
+//@ loop 1 invariant forall j int :: 0 <= j && j <= $k && member.Members[j].Name != f.nodeName ==> !has(f.peers, member.Members[j].Name)
+//@ loop 1 invariant forall n string :: has(f.peers, n) ==> old(has(f.peers, n)) && f.peers[n] == old(f.peers[n])
+//@ loop 1 invariant forall n string :: old(has(f.peers, n)) && !has(f.peers, n) ==> T.$gone[n] && S.$sdel[n] && n != f.nodeName
+//@ loop 1 invariant forall n string :: (T.$gone[n] && !old(T.$gone[n])) || (S.$sdel[n] && !old(S.$sdel[n])) ==> old(has(f.peers, n)) && !has(f.peers, n)
+// every named node other than this one is no peer any more
+//@ ensures [C17] forall j int :: 0 <= j && j < len(member.Members) && member.Members[j].Name != f.nodeName ==> !has(f.peers, member.Members[j].Name)
+// no peer appears, none is replaced
+//@ ensures [C17] forall n string :: has(f.peers, n) ==> old(has(f.peers, n)) && f.peers[n] == old(f.peers[n])
+// every peer that was removed lost its subscriptions in the federation tree and its session
+//@ ensures [C17] forall n string :: old(has(f.peers, n)) && !has(f.peers, n) ==> T.$gone[n] && S.$sdel[n] && n != f.nodeName
+// and only those did
+//@ ensures [C17] forall n string :: (T.$gone[n] && !old(T.$gone[n])) || (S.$sdel[n] && !old(S.$sdel[n])) ==> old(has(f.peers, n)) && !has(f.peers, n)
